@@ -163,6 +163,14 @@ def wl_snapshots(ctx, rng, case):
         hname, hf = gen.pick_hash(rng, keys) if rng.random() < 0.35 else ("library_default", None)
         case.desc["hash"] = hname
         ctx.observe("hash_strategies", hname)
+        pre = rng.choice(["nothing", "nothing", "a longer export", "a longer export", "a shorter file", "junk of the same length"])
+        case.desc["at_the_location_before_creation"] = pre
+        if pre != "nothing":
+            # the location is not new: it holds the backing file of an earlier, roomier (or smaller) filter, or junk - creation replaces it
+            with open(path, "wb") as fh:
+                fh.write(bytes(P.BloomFilter(est * rng.randint(3, 30) + 11, 0.01)) if pre == "a longer export" else
+                         (bytes(P.BloomFilter(1, 0.5)) if pre == "a shorter file" else b"\x5a" * ((m + 7) // 8 + 20)))
+            ctx.count("filters_created_over_an_existing_file")
         f = P.BloomFilterOnDisk(given, est, rate, **bl.kw_hash(hf))
         case.op("create", form)
         orc = FileOracle(est, rate, m, k, hf)
